@@ -118,6 +118,7 @@ def obligations(tier, seed):
         obs += raw
     else:
         obs += raw
+        _nbase = len(obs)
         for k, st in tpl:
             if "/plain" in k:
                 obs.append(TableOb(k, st, "ansi", "tabs", 5, seed, length=3))
@@ -126,4 +127,8 @@ def obligations(tier, seed):
             sub = [(k, st) for k, st in tpl if st.kind in ("insert", "ctas", "bare", "view") and not st.paren]
             for k, st in rnd.sample(sub, len(sub) // 3):
                 obs.append(TableOb(k, st, d, "tabs", 5, seed))
+        if len(obs) > 750:
+            # sized by wall time: every base instance, and a seeded share of the additional length / dialect instances
+            extras = obs[_nbase:]
+            obs = obs[:_nbase] + rnd.sample(extras, max(0, 750 - _nbase))
     return obs
